@@ -79,4 +79,34 @@ def layoutModel (ord : G → M G) (cfg : Cfg) (es : InEdges) : M Out := do
   let finals ← comps.mapM (layoutComponent ord cfg)
   pure (collect cfg 0 0 finals)
 
+
+/-! ### sizes and spacings enter after the ordering phase
+
+    Phases 0–3 never read a node size or a spacing (fact group `Numbers`: `sizeReadsPhases123`); the composed model makes that explicit
+    too: `layoutModelS` runs pre-processing and phases 1–3 under options from which every size and spacing has been removed, and only then
+    gives every real node the size the options configure for its id (helper nodes 0, every other piece of geometry reset). `T:pipeline-sizes`
+    compares THIS function with the public result of the real `Layout` on every traced run. -/
+
+/-- the options with every size and spacing removed: all that phases 0–3 get to see -/
+def sizeFreeCfg (cfg : Cfg) : Cfg := { cfg with ns := 0, ls := 0, fixed := none, sizes := none }
+
+/-- node sizes from the options, by id; helper nodes 0; coordinates, layer sizes and route points reset -/
+def attachSizes (cfg : Cfg) (g : G) : G :=
+  { g with nodes := g.nodes.map fun n =>
+             { n with x := 0, y := 0, w := if n.virt then 0 else (sizeOf cfg n.id).1, h := if n.virt then 0 else (sizeOf cfg n.id).2 },
+           layers := g.layers.map fun l => { l with w := 0, h := 0 },
+           edges := g.edges.map fun ed => { ed with pts := [] } }
+
+def layoutComponentS (ord : G → M G) (cfg : Cfg) (c : G × List Nat) : M G := do
+  let g ← phase1 cfg.p1 c.1
+  let g ← phase2Model (sizeFreeCfg cfg) g
+  let g ← phase3Model ord g
+  let g ← phase4Model cfg (attachSizes cfg g) >>= phase5 cfg.p5 cfg.ls
+  pure (postProcess g c.2)
+
+def layoutModelS (ord : G → M G) (cfg : Cfg) (es : InEdges) : M Out := do
+  let comps ← preProcess (sizeFreeCfg cfg) es
+  let finals ← comps.mapM (layoutComponentS ord cfg)
+  pure (collect cfg 0 0 finals)
+
 end Autog
